@@ -33,7 +33,7 @@ CONSTANTS Links, MaxHbf, MaxPages, MaxWords, Df, Ver, Running, Its,
 VARIABLES g, chk, stream, errs, fault, noff
 vars == << g, chk, stream, errs, fault, noff >>
 
-FeeOf(l) == IF Ob THEN 5 * 4096 + 256 * (l % 2) + 40 + l ELSE 4096 + 256 * (l % 3) + 7 + l          \* distinct staves
+FeeOf(l) == IF Ob THEN 5 * 4096 + 256 * (l % 2) + 30 + l ELSE 4096 + 256 * (l % 3) + 7 + l          \* distinct staves
 LanesOf(l) == IF Ob THEN 1 + 2 + 256 ELSE 7                      \* OB: lanes 0, 1, 8 active; IB: lanes 0, 1, 2
 LaneIds == IF Ob THEN {64, 73} ELSE {32, 34}                     \* 0x40 (lane 0, input 0), 0x49 (lane 8, input 1) / lanes 0, 2
 InactiveId == IF Ob THEN 66 ELSE 37                              \* valid id, lane not active (OB lane 2 / IB lane 5)
